@@ -3,16 +3,95 @@ Proof: orchestration facts (Props/C09.lean): loop exit reasons, stable texts sta
 cycle, fix's history asymmetry.  Confluence / termination of ~95 heuristic rules is not a theorem: the iteration sweep
 applies format_code seven times on the corpus."""
 import common
+import oracles
 import pipeline
 import sweep
+from common import Suite
 
 TRUSTED = ["C09: convergence of the rule set itself is examined by the iteration sweep only"]
 ASSUMPTIONS = []
 
 
+def width_programs():
+    """statements whose joined length lies just beyond the line limit, at nesting depths where the limit handed to the code
+    formatter for a nested statement (the limit minus the indentation, with its lower bound) differs from the enclosing one's"""
+    out = []
+    blocks = ["if flag:", "for item in items:", "while flag:", "with ctx() as c:", "try:"]
+    for depth in (0, 1, 2, 5, 6, 10, 11, 12):
+        indent = 4 * depth
+        for width in (60, 80, 100):
+            lengths = sorted({width + 1, width + 3, 60 + indent - 1, 60 + indent, 60 + indent + 2})
+            for total in lengths:
+                if total <= width or total - indent < 30:
+                    continue
+                for shape in range(2):
+                    room = total - indent
+                    if shape == 0:  # a call with several arguments
+                        head, tail = "value = compute(", ")"
+                        args, k = [], 0
+                        while len(head + ", ".join(args) + tail) < room:
+                            args.append(f"argument_{k}")
+                            k += 1
+                        stmt = head + ", ".join(args) + tail
+                        stmt = (stmt[: room - 1].rstrip(" +,(_") + ")") if len(stmt) > room else stmt
+                    else:  # a chain of additions
+                        terms, k = ["total_0"], 1
+                        while len("emit(" + " + ".join(terms) + ")") < room:
+                            terms.append(f"term_{k}")
+                            k += 1
+                        stmt = "emit(" + " + ".join(terms) + ")"
+                        stmt = (stmt[: room - 1].rstrip(" +,(_") + ")") if len(stmt) > room else stmt
+                    lines, ind = ["def work(flag, items, ctx):"], 4
+                    body_depth = max(depth - 1, 0)
+                    for d in range(body_depth):
+                        lines.append(" " * ind + blocks[d % len(blocks)])
+                        ind += 4
+                    if depth == 0:
+                        lines = []
+                        ind = 0
+                    lines.append(" " * ind + stmt)
+                    closing = []
+                    j = ind
+                    for d in reversed(range(body_depth)):
+                        j -= 4
+                        if blocks[d % len(blocks)] == "try:":
+                            closing.append(" " * j + "except ValueError:")
+                            closing.append(" " * (j + 4) + "raise")
+                    prog = "\n".join(lines + closing) + "\n" + ("\n\nwork(True, [1], open)\n" if depth else "")
+                    try:
+                        compile(prog, "<w>", "exec")
+                    except SyntaxError:
+                        continue
+                    out.append((prog, width))
+    return list(dict.fromkeys(out))
+
+
+def width_suite(ctx):
+    s = Suite("C09-line-limit", kind="oracle")
+    cases = []
+    for (prog, width) in width_programs():
+        for o in ({"max_line_length": width}, {"max_line_length": width, "safe": True}):
+            cases.append((prog, o))
+    results = oracles.pmap(oracles.task_iterate, [(src, dict(o), 7) for (src, o) in cases])
+    for (src, o), res in zip(cases, results):
+        s.cases += 1
+        if res[0] != "ok":
+            continue
+        texts = res[1]
+        if texts[1] != texts[0]:
+            s.nt([src, o])
+        s.count("width=%d" % o["max_line_length"])
+        if texts[5] != texts[6] or texts[6] != texts[7]:
+            s.disagreements.append({"sha": oracles.sha(src), "src": src, "opts": o, "family": "line-limit", "texts": texts[4:],
+                                    "what": f"format_code(opts={o}) is not a fixed point after 5 applications (line limit family)"})
+    s.note = ("one long statement (a call with many arguments / a chain of additions) whose joined length lies 1-3 columns beyond the line limit or around 60 + indentation, at nesting depths 0-12 inside "
+              "if / for / while / with / try blocks, x line limits 60 / 80 / 100 x {default, safe}: x, f(x), ..., f^7(x); oracle f^5 = f^6 = f^7; non-trivial = the first application changes the text")
+    return s
+
+
 def suites(ctx):
     common.import_pyrefact()
-    return [pipeline.driver_suite(ctx), sweep.converge_suite(ctx, quick_n=70)]
+    return [pipeline.driver_suite(ctx), sweep.converge_suite(ctx, quick_n=70), width_suite(ctx)]
 
 
 def match_known(d, known):
@@ -21,7 +100,7 @@ def match_known(d, known):
 
 def search(ctx, breaks):
     common.import_pyrefact()
-    return sweep.converge_suite(ctx, quick_n=250).disagreements[:5]
+    return (width_suite(ctx).disagreements + sweep.converge_suite(ctx, quick_n=250).disagreements)[:5]
 
 
 def replay(ctx, inp):
